@@ -122,6 +122,11 @@ func (c *ConfigManager) ReloadFromRaw(data []byte) (err error) {
 	if err != nil {
 		return errors.Wrapf(err, "marshal config for hash")
 	}
+	// the yaml library orders map keys "naturally", with a comparison that is not transitive for keys that mix
+	// digits and letters (x9_, x10A, x1Ab): where such keys end up in the text follows go's random map order
+	if text, err = sortedYAML(text); err != nil {
+		return errors.Wrapf(err, "marshal config for hash")
+	}
 	// neither of them sees the password inside a url (remote url, proxy url), so hash the urls too
 	urls := []string{}
 	collectURLs(reflect.ValueOf(info.Config), &urls, 0)
@@ -145,6 +150,30 @@ func (c *ConfigManager) ReloadFromRaw(data []byte) (err error) {
 	}
 
 	return nil
+}
+
+// sortedYAML return the document with the keys of every mapping in plain string order
+func sortedYAML(text []byte) ([]byte, error) {
+	doc := yaml.MapSlice{}
+	if err := yaml.Unmarshal(text, &doc); err != nil {
+		return nil, err
+	}
+	sortYAMLNode(doc)
+	return yaml.Marshal(doc)
+}
+
+func sortYAMLNode(node interface{}) {
+	switch n := node.(type) {
+	case yaml.MapSlice:
+		sort.SliceStable(n, func(i, j int) bool { return fmt.Sprint(n[i].Key) < fmt.Sprint(n[j].Key) })
+		for _, item := range n {
+			sortYAMLNode(item.Value)
+		}
+	case []interface{}:
+		for _, item := range n {
+			sortYAMLNode(item)
+		}
+	}
 }
 
 // collectURLs append every url found in the exported fields of v, with user and password, in the order of the config
